@@ -24,6 +24,12 @@ CHECKS = {
         note="Trusted: Lean kernel (standard axioms); the fact extractor for universes; correspondence harness. lookup_order being a permutation of elements (termination of its while loop) is validated exhaustively, not proved.",
         design="DESIGN.md §5 C12",
     ),
+    "C04": dict(
+        technique="Lean 4 proof (invariant NoOverlap + exact pointwise count equation for decertify) over a model built on the source-translated Timespan operations + history correspondence on a real SQLite registry",
+        text="certify_preserves_noOverlap (any batch), certify_refused_iff, decertify_exact (at every instant: nothing valid inside the decertified span for the selected data IDs, exactly the previous rows elsewhere), decertify_preserves_noOverlap, lookup_unique_or_ambiguous are proved in Lean 4 for all states, batches and timespans, on top of the Timespan operations regenerated from source. The certify/decertify table model is tied to the code by seeded histories on a real registry comparing the whole association table and lookups after every operation, with an independent pointwise interval-map oracle.",
+        note="Trusted: Lean kernel; py2lean for Timespan; SQLite executing the SELECT/DELETE/INSERT of certify/decertify atomically; PostgreSQL exclusion-constraint branch not executable here.",
+        design="DESIGN.md §5 C04",
+    ),
 }
 
 NOT_YET = {}
